@@ -52,24 +52,29 @@ SPECS = [
     {'name': 'U32', 'type': 'UDINT', 'length': 3, 'address': None},
     {'name': 'D', 'type': 'LREAL', 'length': 3, 'address': None},
     {'name': 'Scalar', 'type': 'DINT', 'length': 1, 'address': None},
+    {'name': 'Huge', 'type': 'DINT', 'length': 17000, 'address': None},       # more than 64 KiB: fragment offsets beyond 16 bits
 ] + [   # one scalar tag of every type both sides support (scalars go through the simulator's own default/assignment path)
     {'name': 'S_' + t, 'type': t, 'length': 1, 'address': None}
     for t in ('BOOL', 'SINT', 'INT', 'LINT', 'USINT', 'UINT', 'UDINT', 'ULINT', 'REAL', 'LREAL')
 ]
 BYNAME = {s['name']: s for s in SPECS}
+HUGE_VALUES = [100000 + i for i in range(17000)]
 
 
 @st.composite
 def op(draw):
     kind = draw(st.sampled_from(['read', 'read', 'write', 'write', 'multi', 'bigread', 'bigwrite', 'oob', 'unknown', 'unknown',
                                  'raw_read', 'raw_write', 'conn_read', 'conn_write', 'conn_read', 'abrupt', 'raw_oob', 'conn_oob',
-                                 'conn_unknown']))
+                                 'conn_unknown', 'hugeread']))
+    if kind == 'hugeread':
+        # Read Tag Fragmented of the whole 17000-element tag at a byte offset around / beyond 65536
+        return {'kind': kind, 'elem_offset': draw(st.sampled_from([16383, 16384, 16385, 16500, 16990])), 'connected': draw(st.booleans())}
     if kind == 'conn_unknown':
         return {'kind': kind, 'tag': draw(st.sampled_from(['Nope', 'A_', 'Bigg']))}
     if kind == 'abrupt':
         return {'kind': kind}
     if kind in ('raw_oob', 'conn_oob'):
-        s = draw(st.sampled_from([x for x in SPECS if x['name'] != 'Big']))
+        s = draw(st.sampled_from([x for x in SPECS if x['name'] not in ('Big', 'Huge')]))
         L = s['length']
         e = draw(st.sampled_from([L, L + 1, 1000] + ([L - 1] if L > 1 else [])))
         n = 2 if e == L - 1 else draw(st.sampled_from([1, 2]))
@@ -85,12 +90,12 @@ def op(draw):
         return o
     if kind == 'unknown':
         return {'kind': kind, 'tag': draw(st.sampled_from(['Nope', 'A_', 'Bigg']))}
-    s = draw(st.sampled_from([x for x in SPECS if x['name'] != 'Big']))
+    s = draw(st.sampled_from([x for x in SPECS if x['name'] not in ('Big', 'Huge')]))
     L = s['length']
     if kind == 'multi':
         members = []
         for _ in range(draw(st.integers(2, 6))):
-            m = draw(st.sampled_from([x for x in SPECS]))
+            m = draw(st.sampled_from([x for x in SPECS if x['name'] != 'Huge']))
             e = draw(st.integers(0, m['length'] - 1))
             if draw(st.integers(0, 5)) == 0:
                 e = m['length'] + draw(st.integers(0, 3))       # failing member
@@ -116,7 +121,8 @@ def op(draw):
 def cases(draw, k):
     return {'connection_size': draw(st.sampled_from([None, 500, 4000])),
             'seq0': draw(st.sampled_from([0, 0, 0x7FFD, 0x7FFE, 0x7FFF, 0xFFFD, 0xFFFE, 0x8000])),
-            'portless': draw(st.booleans()), 'micro800': draw(st.integers(0, 3)) == 0,
+            'portless': draw(st.booleans()), 'micro800': draw(st.integers(0, 3)) == 0, 'hops': draw(st.sampled_from([1, 1, 2])),
+            'pylogix_route': draw(st.integers(0, 3)) == 0,
             'ops': draw(st.lists(op(), min_size=1, max_size=k))}
 
 
@@ -124,14 +130,15 @@ def cases(draw, k):
 
 
 class Connected(object):
-    def __init__(self, server, large=False, seq0=0, portless=False):
+    def __init__(self, server, large=False, seq0=0, portless=False, hops=1):
         self.s = sim.TcpSession(server)
         self.seq = seq0 & 0xFFFF          # the 16-bit sequence count starts anywhere and wraps
         fo = {'priority': 0x0A, 'timeout_ticks': 0x0E, 'O_T_connection_ID': 0x20000002, 'T_O_connection_ID': 0x20000001,
               'connection_serial': 0x1234, 'O_vendor': 0x1337, 'O_serial': 42, 'connection_timeout_multiplier': 3,
               'O_T_RPI': 0x00201234, 'O_T_NCP': (0x42000000 | 4000) if large else (0x4200 | 500), 'T_O_RPI': 0x00204001,
               'T_O_NCP': (0x42000000 | 4000) if large else (0x4200 | 500), 'transport_class_triggers': 0xA3,
-              'connection_path': ([] if portless else [{'port': 1, 'link': 0}]) + [{'class': 2}, {'instance': 1}]}
+              'connection_path': ([] if portless else [{'port': 1, 'link': 0}] + ([{'port': 2, 'link': '10.1.2.3'}] if hops > 1 else []))
+                                 + [{'class': 2}, {'instance': 1}]}
         # (portless: the connection path of a device without a backplane, e.g. pylogix Micro800 mode: 20 02 24 01)
         self.fo = fo
         out = self.s.send(rc.enc_forward_open(fo, large=large), wrap=False)
@@ -140,6 +147,12 @@ class Connected(object):
         rc._need(out['reply']['service'] == ((0x5B if large else 0x54) | 0x80),
                  'Forward Open reply service 0x%02X is not the request service with the reply bit' % out['reply']['service'])
         self.reply = rc.dec_forward_open_reply(out['reply'])
+        # the simulator documents that it grants the requested packet intervals (API = RPI) and echoes the connection triple
+        rc._need(self.reply['O_T_API'] == fo['O_T_RPI'] and self.reply['T_O_API'] == fo['T_O_RPI'],
+                 'Forward Open reply intervals O->T %#x T->O %#x differ from the requested %#x / %#x' % (
+                     self.reply['O_T_API'], self.reply['T_O_API'], fo['O_T_RPI'], fo['T_O_RPI']))
+        rc._need((self.reply['connection_serial'], self.reply['O_vendor'], self.reply['O_serial']) == (fo['connection_serial'], fo['O_vendor'], fo['O_serial']),
+                 'Forward Open reply does not echo the connection serial / vendor / originator serial')
         self.conn_id = self.reply['O_T_connection_ID']
 
     def send(self, message):
@@ -211,6 +224,8 @@ def pred(case, stats):
     server = sim.per_process('c14', lambda: sim.TcpServer(SPECS))
     reset_tags(server)
     mdl = M.Model(SPECS)
+    server.set_values('Huge', HUGE_VALUES)
+    mdl.tags['Huge']['values'][:] = HUGE_VALUES
     classes = set()
     nontrivial = False
     last_writer = {}        # tag -> 'pylogix' | 'raw'
@@ -223,6 +238,8 @@ def pred(case, stats):
         plc.ConnectionSize = case['connection_size']
     if case.get('micro800'):
         plc.Micro800 = True         # pylogix then opens its connection with a port-less connection path
+    elif case.get('pylogix_route'):
+        plc.Route = [(1, 0), (2, '10.1.2.3')]       # a two-hop connection path (an unconfigured simulator accepts any route)
     raw = None
     conn = None
     try:
@@ -282,11 +299,43 @@ def pred(case, stats):
                          'error status (CIP 0xFF), no value')
                 elif '255' not in r.Status:
                     fail('pylogix-out-of-range-status', {'step': step, 'op': o, 'status': r.Status}, 'CIP status 0xFF (255)')
+            elif k == 'hugeread':
+                off = 4 * o['elem_offset']
+                msg = rc.req_read_frag([{'symbolic': 'Huge'}], 17000, off)
+                try:
+                    if o['connected']:
+                        if conn is None:
+                            conn = Connected(server, large=bool(case['connection_size'] and case['connection_size'] > 511), seq0=case.get('seq0', 0), portless=bool(case.get('portless')), hops=case.get('hops', 1))
+                        rpy = conn.send(msg)
+                    else:
+                        if raw is None:
+                            raw = sim.TcpSession(server)
+                        out = raw.send(msg, wrap=True)
+                        if out['kind'] == 'timeout':
+                            raise common.HarnessError('timeout on raw request')
+                        rpy = out['reply']
+                    if rpy is None:
+                        fail('raw-request-without-cip-reply', {'step': step, 'op': o}, 'a fragment of the tag')
+                        raw = None if not o['connected'] else raw
+                        conn = None if o['connected'] else conn
+                        continue
+                    if rpy['service'] != 0xD2 or rpy['status'] not in (0, 6):
+                        fail('raw-reply-status', {'step': step, 'op': o, 'reply': M._r(rpy)}, {'service': 0xD2, 'status': '0x00 or 0x06'})
+                        continue
+                    t, vals = rc.dec_read_reply(rpy, 'DINT')
+                except rc.RefDecodeError as exc:
+                    fail('raw-reply-rejected-by-reference-decoder', {'step': step, 'op': o, 'error': str(exc)}, 'typed data')
+                    continue
+                want = mdl.tags['Huge']['values'][o['elem_offset']:o['elem_offset'] + len(vals)]
+                if not vals or vals != want:
+                    fail('raw-read-data', {'step': step, 'op': o, 'got': vals[:4], 'elements': len(vals)}, {'want': want[:4], 'from_element': o['elem_offset']})
+                nontrivial = True
+                classes.add('fragment-offset-beyond-64KiB' if off >= 65536 else 'fragment-offset-below-64KiB')
             elif k == 'conn_unknown':
                 # unknown tag on the reference codec's connected session: a CIP error reply, and the session goes on
                 try:
                     if conn is None:
-                        conn = Connected(server, large=bool(case['connection_size'] and case['connection_size'] > 511), seq0=case.get('seq0', 0), portless=bool(case.get('portless')))
+                        conn = Connected(server, large=bool(case['connection_size'] and case['connection_size'] > 511), seq0=case.get('seq0', 0), portless=bool(case.get('portless')), hops=case.get('hops', 1))
                     rpy = conn.send(rc.req_read_tag([{'symbolic': o['tag']}], 1))
                 except rc.RefDecodeError as exc:
                     fail('raw-reply-rejected-by-reference-decoder', {'step': step, 'op': o, 'error': str(exc)}, 'a CIP error reply on the connected session')
@@ -303,7 +352,7 @@ def pred(case, stats):
             elif k == 'abrupt':
                 # another connected session of the same host that ends without Forward Close / Unregister (a crashed client)
                 try:
-                    other = Connected(server, large=False, seq0=case.get('seq0', 0), portless=bool(case.get('portless')))
+                    other = Connected(server, large=False, seq0=case.get('seq0', 0), portless=bool(case.get('portless')), hops=case.get('hops', 1))
                     other.send(rc.req_read_tag([{'symbolic': 'A'}], 1))
                     other.s.sock.close()
                 except rc.RefDecodeError as exc:
@@ -326,7 +375,7 @@ def pred(case, stats):
                         rpy = out['reply']
                     else:
                         if conn is None:
-                            conn = Connected(server, large=bool(case['connection_size'] and case['connection_size'] > 511), seq0=case.get('seq0', 0), portless=bool(case.get('portless')))
+                            conn = Connected(server, large=bool(case['connection_size'] and case['connection_size'] > 511), seq0=case.get('seq0', 0), portless=bool(case.get('portless')), hops=case.get('hops', 1))
                         rpy = conn.send(msg)
                 except rc.RefDecodeError as exc:
                     fail('raw-reply-rejected-by-reference-decoder', {'step': step, 'op': o, 'error': str(exc)}, 'a reply the strict reference decoder accepts')
@@ -362,7 +411,7 @@ def pred(case, stats):
                         rpy = out['reply']
                     else:
                         if conn is None:
-                            conn = Connected(server, large=bool(case['connection_size'] and case['connection_size'] > 511), seq0=case.get('seq0', 0), portless=bool(case.get('portless')))
+                            conn = Connected(server, large=bool(case['connection_size'] and case['connection_size'] > 511), seq0=case.get('seq0', 0), portless=bool(case.get('portless')), hops=case.get('hops', 1))
                         rpy = conn.send(msg)
                 except rc.RefDecodeError as exc:
                     fail('raw-reply-rejected-by-reference-decoder', {'step': step, 'op': o, 'error': str(exc)},
